@@ -98,8 +98,10 @@ fn remove_percent_suffix(arg: &str) -> &str {
 }
 
 fn ensure_display_width_1(what: &str, arg: String) -> String {
-    match arg.grapheme_indices(true).count() {
-        INLINE_SYMBOL_WIDTH_1 => arg,
+    // The wrapping code reserves exactly one column for these symbols: check the display width
+    // (a double-width symbol is a single grapheme, but needs two columns).
+    match arg.width() {
+        INLINE_SYMBOL_WIDTH_1 if arg.grapheme_indices(true).count() == 1 => arg,
         width => fatal(format!(
             "Invalid value for {what}, display width of \"{arg}\" must be {INLINE_SYMBOL_WIDTH_1} but is {width}",
         )),
